@@ -6,6 +6,7 @@
 #include <gmlc/libguarded/lr_guarded.hpp>
 
 #include <optional>
+#include <vector>
 
 #include <chrono>
 
@@ -422,6 +423,97 @@ void run_rstall()
     S = nullptr;
 }
 
+// --------------------------------------------------------------- many mode
+// One thread may hold any number of shared handles.  The reader counters count
+// handles, so their width is a boundary of its own: with N handles alive (N around
+// 2^8 and 2^16) a writer must still wait for every one of them.
+struct ManyState {
+    std::vector<LR::shared_handle>* held;
+    bool release_begun = false;
+    int n = 0;
+};
+ManyState* MS;
+
+void many_reader(void*)
+{
+    long v0 = -1;
+    for (int i = 0; i < MS->n; i++) {
+        auto h = S->lr->lock_shared();
+        long v = h->read();
+        if (v0 < 0) v0 = v;
+        gsim::Oracle o;
+        MS->held->push_back(std::move(h));
+    }
+    gsim::ev_set(1);
+    for (int y = 0; y < 40; y++) gsim::yield();  // the writer is (or should be) waiting
+    for (int i : {0, MS->n / 2, MS->n - 1}) {
+        long v;
+        {
+            gsim::Oracle o;
+            v = (*MS->held)[(size_t)i]->read();
+        }
+        if (v != v0)
+            gsim::fail("modified_under_handle", "one of %d shared handles held by one thread sees "
+                       "%ld, it saw %ld when all of them were taken", MS->n, v, v0);
+    }
+    {
+        gsim::Oracle o;
+        MS->release_begun = true;
+    }
+    // release through the library (instrumented), newest first
+    while (true) {
+        std::unique_ptr<LR::shared_handle> hp;
+        {
+            gsim::Oracle o;
+            if (MS->held->empty()) break;
+            hp.reset(new LR::shared_handle(std::move(MS->held->back())));
+            MS->held->pop_back();
+        }
+        hp->reset();
+        gsim::Oracle o;
+        hp.reset();
+    }
+}
+void many_writer(void*)
+{
+    gsim::ev_wait(1);
+    S->lr->modify([](Cell& c) { c.rmw_add(1); });
+    gsim::Oracle o;
+    if (!MS->release_begun)
+        gsim::fail("writer_overtook_readers", "modify() returned while %d shared handles taken "
+                   "before it began were all still held", MS->n);
+    S->mod_done++;
+}
+void run_many()
+{
+    Cell::W = 1;
+    static const int sizes[] = {2, 255, 256, 257, 65535, 65536, 65537, 131072};
+    S = new State();
+    ManyState ms;
+    MS = &ms;
+    ms.n = sizes[gsim::knob("handles", 0, 7)];
+    {
+        gsim::Oracle o;
+        ms.held = new std::vector<LR::shared_handle>();
+        ms.held->reserve((size_t)ms.n);
+    }
+    if (gsim::knob("pre_modify", 0, 1)) do_modify(0);  // readers on the other side
+    gsim::prog_reset(2);
+    int r = gsim::spawn(many_reader, nullptr);
+    int w = gsim::spawn(many_writer, nullptr);
+    gsim::join(r);
+    gsim::join(w);
+    final_checks(1);
+    {
+        gsim::Oracle o;
+        delete ms.held;
+    }
+    gsim::probe("lr.many_handles_one_thread");
+    delete S;
+    S = nullptr;
+    MS = nullptr;
+}
+
 void run()
 {
     const char* mode = gsim::param("mode", "std");
@@ -430,6 +522,7 @@ void run()
     else if (!strcmp(mode, "overlap")) run_overlap();
     else if (!strcmp(mode, "rstall")) run_rstall();
     else if (!strcmp(mode, "throw")) run_std(true);
+    else if (!strcmp(mode, "many")) run_many();
     else run_std(false);
 }
 }  // namespace
